@@ -723,23 +723,23 @@ def check(run):
                 "results never called or dereferenced unguarded; recursion only on strict components; every trigger "
                 "of the name sanitiser is handed to it.")
     F = Folder(run.repo)
-    r15a(run, F)
-    r15b(run, F)
-    r15cf(run)
-    r15d(run)
-    r15e(run)
-    r15g(run)
-    r15h(run)
-    r15i(run)
+    run.rule(r15a, run, F)
+    run.rule(r15b, run, F)
+    run.rule(r15cf, run)
+    run.rule(r15d, run)
+    run.rule(r15e, run)
+    run.rule(r15g, run)
+    run.rule(r15h, run)
+    run.rule(r15i, run)
     # shared with C09 / C10: anyOf / oneOf / not are translated to the combinators, whose verdicts need (R09a-c) every
     # argument tried on the original input with the branch's error discipline, (R10c) handle_error recording before it
     # raises, (R10g) a fresh layer per attempt
     from . import c09, c10
     run.rules_run += ["R09a", "R09b", "R09c", "R10c", "R10g", "R18i"]
-    c09.r09(run)
-    c10.r10c(run)
-    c10.r10g(run)
+    run.rule(c09.r09, run)
+    run.rule(c10.r10c, run)
+    run.rule(c10.r10g, run)
     # a nested object keeps its own minProperties / maxProperties / additionalProperties only if the context of a nested
     # class carries that class's options
     from . import c18
-    c18.r18i(run)
+    run.rule(c18.r18i, run)
